@@ -61,6 +61,24 @@ def _join(ls, trailing=True):
     return "\n".join(ls) + ("\n" if trailing and ls else "")
 
 
+def big_line(rng):
+    """A line that is legal text but very long / very repetitive: thousands
+    of $-constructs in one value, a key or a comment of several thousand
+    characters, a long run of one metacharacter."""
+    n = rng.choice([1100, 1500, 3000])
+    return rng.choice([
+        "zzbig " + "$$" * n,
+        "%define zzbig " + "$$" * n,
+        "%define zzbig2 " + "${zzbigref}" * n,
+        "zzbig " + "$(ZCSIM_ENV_NOT_SET)" * n,
+        "zzbig " + "x" * (n * 10),
+        "z" * (n * 3) + " v",
+        "#" + " comment" * n,
+        "<" * n, ">" * n, "(" * n, "%" * n, "$" * n, "<a " + "b" * n + ">",
+        "%include " + "../" * n + "x.conf",
+    ])
+
+
 def corrupt(rng, text, kinds=None):
     """Apply one stored-content fault.  Returns (new text, kind label)."""
     kinds = kinds or ["truncate-at", "drop-line", "dup-line", "swap-lines",
@@ -69,6 +87,13 @@ def corrupt(rng, text, kinds=None):
                       "dup-token", "insert-line", "move-line"]
     kind = rng.choice(kinds)
     ls, trailing = _lines(text)
+    if rng.random() < 0.03:
+        i = rng.randint(0, len(ls))
+        if rng.random() < 0.5:
+            ls.insert(0, "%define zzbigref ")
+            i += 1
+        ls.insert(i, big_line(rng))
+        return _join(ls), "big-line"
     if kind == "truncate-at":
         if not text:
             return text, None
